@@ -157,8 +157,14 @@ def build(ctx):
                     if len(eff) != 1 or len(rfs) != 1 or rfs[0]["density"] is not False:
                         return be.Verdict(be.REFUTED, "STRUCT", witness={}, detail=f"{len(eff)} curves, {len(rfs)} recovery calls")
                     e = eff[0]
-                    if not isinstance(e["x"], ArrV) or e["x"].get(k) is not tm.app("t", [k]):
+                    if not isinstance(e["x"], ArrV):
                         return be.Verdict(be.REFUTED, "STRUCT", witness={}, detail="x data are not the simulated times")
+                    if e["x"].get(k) is not tm.app("t", [k]) or e["x"].shape[0] is not nt:
+                        # not literally the stored array: every sample must still be drawn, for every length of the run
+                        vv = be.prove_smt(tm.land(tm.eq(e["x"].shape[0], nt), tm.implies(tm.land(tm.le(tm.const(0), k), tm.lt(k, nt)), tm.eq(e["x"].get(k), tm.app("t", [k])))), list(o.pc) + list(o.facts), want={"len(time)": nt, "k": k, "points drawn": e["x"].shape[0]})
+                        if vv.status != be.PROVED:
+                            vv.detail = "the x data of the curve are not all simulated times (some samples are not drawn): " + vv.detail
+                            return with_models(vv, o)
                     if which == "plot_recovery_factor":
                         if e["y"] is not rfs[0]["array"] and (not isinstance(e["y"], ArrV) or e["y"].get(k) is not rfs[0]["array"].get(k)):
                             return be.Verdict(be.REFUTED, "STRUCT", witness={}, detail="y data are not recovery_factor()")
